@@ -580,18 +580,16 @@ fn do_minimize(dfa: DFA) -> DFA {
         let all_states = dfa.get_all_states();
         let nonaccepting_states =
             [&all_states, &dfa.accepting_states, &dead_state_group].difference();
-        if nonaccepting_states.is_empty() {
-            // Nothing to minimize
-            return dfa;
+        // Only non-empty groups may enter the partition.  In particular there may be no live
+        // non-accepting state at all (every state accepting), yet equivalent accepting states
+        // still need to be merged.
+        let mut initial_partition = vec![pool.intern(dead_state_group)];
+        for group in [dfa.accepting_states.clone(), nonaccepting_states] {
+            if !group.is_empty() {
+                initial_partition.push(pool.intern(group));
+            }
         }
-        let nonaccepting_states_intern_id = pool.intern(nonaccepting_states);
-        let accepting_states_intern_id = pool.intern(dfa.accepting_states.clone());
-        let dead_state_intern_id = pool.intern(dead_state_group);
-        HashSet::from_iter([
-            dead_state_intern_id,
-            accepting_states_intern_id,
-            nonaccepting_states_intern_id,
-        ])
+        HashSet::from_iter(initial_partition)
     };
     let mut worklist = partitions.clone();
     let transitions_image = dfa.make_transitions_image();
